@@ -421,7 +421,7 @@ func checkMemoCompleteness(c *Ctx) {
 					if call, ok := ast.Unparen(s.Rhs[0]).(*ast.CallExpr); ok {
 						if sel, ok := call.Fun.(*ast.SelectorExpr); ok && sel.Sel.Name == "Get" {
 							if pt, ok := info.TypeOf(s.Lhs[0]).(*types.Pointer); ok {
-								if _, nme := namedTypeName(pt.Elem()); nme == "stringsEntry" {
+								if isMemoEntry(pt.Elem()) {
 									if id, ok := s.Lhs[0].(*ast.Ident); ok {
 										entry = info.Defs[id]
 										tableExpr = types.ExprString(sel.X)
@@ -438,7 +438,7 @@ func checkMemoCompleteness(c *Ctx) {
 						x = u.X
 					}
 					if cl, ok := x.(*ast.CompositeLit); ok {
-						if _, nme := namedTypeName(info.TypeOf(cl)); nme == "stringsEntry" {
+						if isMemoEntry(info.TypeOf(cl)) {
 							fs, _ := compositeFields(cl)
 							m := map[string]bool{}
 							for k := range fs {
@@ -690,7 +690,18 @@ func checkNameSpaces(c *Ctx, ev *evaluator) {
 	c.Check("R1.2", "synthesised non-terminal names are outside the language of user identifiers", synth.Pos(), len(collide) == 0,
 		fmt.Sprintf("names such as %v are valid IDENT tokens: a user rule with such a name is merged with the synthesised rule and both languages change", firstFew(collide, 4)), wit)
 	// (b) injectivity: names derived from a terminal's spelled-out name vs a non-terminal's own name
-	if init, _ := PkgVarInit(sp, "terminalNames"); init != nil {
+	// the spelled-out names of punctuation terminals: the package-level map from the grammar's terminal type to string
+	spelled := ""
+	for _, n := range sp.Types.Scope().Names() {
+		if v, ok := sp.Types.Scope().Lookup(n).(*types.Var); ok {
+			if m, ok := v.Type().Underlying().(*types.Map); ok && isString(m.Elem()) {
+				if _, kn := namedTypeName(m.Key()); kn == "Terminal" {
+					spelled = v.Name()
+				}
+			}
+		}
+	}
+	if init, _ := PkgVarInit(sp, spelled); init != nil {
 		var clash []string
 		if cl, ok := init.(*ast.CompositeLit); ok {
 			for _, el := range cl.Elts {
@@ -710,7 +721,7 @@ func checkNameSpaces(c *Ctx, ev *evaluator) {
 		c.Check("R1.2", "(kind, symbol) -> synthesised name is injective", synth.Pos(), len(clash) == 0,
 			fmt.Sprintf("%d terminals are spelled out with words that are also valid non-terminal names (%v): an operator over the terminal and over the like-named non-terminal share one synthesised rule", len(clash), firstFew(clash, 4)), w2)
 	} else {
-		c.Lost("R1.2", "terminalNames table")
+		c.Lost("R1.2", "the table of spelled-out terminal names (map[Terminal]string)")
 	}
 
 	// R1.5: term → STRING and term → TOKEN both build the terminal from the lexeme without a distinguishing mark
@@ -782,4 +793,23 @@ func firstFew(s []string, n int) []string {
 		return append(append([]string{}, s[:n]...), "...")
 	}
 	return s
+}
+
+// isMemoEntry: an unexported struct with three or more fields, all of the grammar's non-terminal type: the memo entry that holds
+// the names generated for one sub-expression under the different operators.
+func isMemoEntry(T types.Type) bool {
+	named, ok := T.(*types.Named)
+	if !ok || named.Obj().Exported() {
+		return false
+	}
+	st, ok := named.Underlying().(*types.Struct)
+	if !ok || st.NumFields() < 3 {
+		return false
+	}
+	for i := 0; i < st.NumFields(); i++ {
+		if _, n := namedTypeName(st.Field(i).Type()); n != "NonTerminal" {
+			return false
+		}
+	}
+	return true
 }
